@@ -175,5 +175,9 @@ def run(chk, prog):
     # applied with every kick and drift, which the damping cannot balance at unit width (decided under C02 R1; re-evaluated here)
     from .common import reeval
     reeval(chk, prog, "C02", lambda i: i["rule"] == "R1" and "moment" in i["what"], "R9", "R9-interpolation-moments", 8)
+    # ---- R10: the RF the wake is balanced against has its zero crossing at the synchronous phase -------------------------------------------------------
+    # (static maps are built with the synchronous phase: decided under C19 R2; re-evaluated here)
+    from .common import reeval
+    reeval(chk, prog, "C19", lambda i: i["rule"] == "R2" and "static constructor" in i["what"], "R10", "R10-static-rf-at-the-synchronous-phase", 1)
     chk.notes.append("C05: step order and grid chaining from the constructor bindings, freshness of the wake offsets at the kick, copy-without-arithmetic. "
                      "NOT decided: that the stationary profile satisfies the Haissinski relation.")
